@@ -433,7 +433,7 @@ class StreamSim(Simulator):
                    "value domain excludes documented codec limitations (valgen docstring)",
                    "reference classes are built from the betterproto dataclasses via a FileDescriptorProto"]
     tiers = {
-        "quick": dict(runs=6000, chunk=100, wall_cap=300, det_sample=100),
+        "quick": dict(runs=12000, chunk=100, wall_cap=300, det_sample=100),
         "thorough": dict(runs=600000, chunk=500, wall_cap=1500, det_sample=2000),
     }
     expected_probes = ["probe:older-schema-reader", "probe:frame-with-unknown-fields", "probe:empty-message-frame",
